@@ -1,4 +1,5 @@
 use crate::*;
+use crate::serialization::utils::check_len;
 
 impl cbor_event::se::Serialize for HeaderBody {
     fn serialize<'se, W: Write>(
@@ -122,22 +123,31 @@ impl DeserializeEmbeddedGroup for HeaderBody {
             (|| -> Result<_, DeserializeError> { Ok(BlockHash::deserialize(raw)?) })()
                 .map_err(|e| e.annotate("block_body_hash"))?;
 
+        let mut items: u64 = 7 + match &leader_cert {
+            HeaderLeaderCertEnum::NonceAndLeader(_, _) => 2,
+            HeaderLeaderCertEnum::VrfResult(_) => 1,
+        };
         let operational_cert = (|| -> Result<_, DeserializeError> {
             if raw.cbor_type()? == CBORType::Array {
+                items += 1;
                 Ok(OperationalCert::deserialize(raw)?)
             } else {
+                items += 4;
                 Ok(OperationalCert::deserialize_as_embedded_group(raw, len)?)
             }
         })()
             .map_err(|e| e.annotate("operational_cert"))?;
         let protocol_version = (|| -> Result<_, DeserializeError> {
             if raw.cbor_type()? == CBORType::Array {
+                items += 1;
                 Ok(ProtocolVersion::deserialize(raw)?)
             } else {
+                items += 2;
                 Ok(ProtocolVersion::deserialize_as_embedded_group(raw, len)?)
             }
         })()
             .map_err(|e| e.annotate("protocol_version"))?;
+        check_len(len, items, "header_body")?;
         Ok(HeaderBody {
             block_number,
             slot,
